@@ -142,7 +142,12 @@ channel_release(struct channel* self)
 void
 channel_accept_writes(struct channel* self, uint32_t tf)
 {
+    // The flag is part of the predicate a writer evaluates before sleeping on
+    // notify_space_available, so it must change under the lock. Otherwise the
+    // notification can be lost between the writer's check and its wait.
+    lock_acquire(&self->lock);
     self->is_accepting_writes = tf;
+    lock_release(&self->lock);
     condition_variable_notify_all(&self->notify_space_available);
 }
 
